@@ -520,7 +520,8 @@ func (pkgGen *HttpPackageGenerator) updateMiddlewareReg(router interface{}, midd
 	for _, mw := range middlewareList {
 		mwNamePattern := fmt.Sprintf(" %sMw", mw)
 		if pkgGen.SnakeStyleMiddleware {
-			mwNamePattern = fmt.Sprintf(" %s_mw", mw)
+			// with the "(": " _a_mw" is also found in "func _a_mwzMw(", the function of the group "/a_mwz"
+			mwNamePattern = fmt.Sprintf(" %s_mw(", mw)
 		}
 		// the default templates name the function <mw>Mw in snake style too: a function that is already
 		// there under that name must not be appended a second time
